@@ -244,6 +244,24 @@ var props = []PropSpec{
 			{Func: "Check_Methods", NoNative: true, Reach: []string{"methods", "reset"}, Bounds: "POST/DELETE /records, GET/POST /reset on stores of 0, 3, 4096 entries"},
 		},
 	},
+	{
+		ID: "C13", Pkg: "./c13", Level: "other", NoNativeBuild: true,
+		Explanation: "SUFFICIENT CONDITION, not schedules. What an SMT-based symbolic execution can decide about thread safety is the lock discipline the code relies on: every public operation of AggregationProcess (AggregateMsgByFlowKey with one and two records, ForAllExpiredFlowRecordsDo, ForAllRecordsDo, GetRecords with and without key, GetNumFlows, GetExpiryFromExpirePriorityQueue) is executed symbolically from bounded arbitrary states (0..1 flows quick, 0..2 thorough; symbolic records; deadlines passed or not; failing and succeeding callbacks) so that every feasible path, error paths included, is walked; every load, store and map operation on an object reachable from the process at entry is logged with the set of process mutexes held. The lockset rule is then applied across operations (each may run concurrently with every other and with itself): two accesses to one shared location, at least one a write, not both atomic, without a common lock = VIOLATION; also: a mutex still held at return, a mutex re-acquired while held, unlock of an unlocked mutex. With mutual exclusion trusted this gives atomic operations, hence linearizability with the lock acquisition as linearization point, and reduces 'no lost delta, no double export' to the sequential properties C05/C06. NOT covered: schedules are not enumerated; the Go memory model, sync.RWMutex and the race detector are trusted; the worker pool enters only through the fact that every worker runs AggregateMsgByFlowKey.",
+		Assumptions: []string{"cooperative single-threaded execution; interleavings are not explored", "a breach is reported from the interpreter's access log (both access sites named); no native race-detector run is attempted"},
+		Harnesses: []HarnessSpec{
+			{Func: "Check_Operations", NoNative: true, Reach: []string{"operation-done"}, Tune: func(c *sym.Config, th bool) { c.ClockMode = "frozen" },
+				Bounds: "8 entry points x states of 0..1 (quick) / 0..2 (thorough) flows created by source-node, destination-node or intra-node records x symbolic counters and times x callbacks failing or not x deadlines passed or not"},
+		},
+	},
+	{
+		ID: "C14", Pkg: "./c14", ReplayPkg: "./cmd/rc14", Level: "other",
+		Explanation: "PARTIAL. Decidable part: (1) lockset over the bodies each goroutine of an exporting process runs - application: SendSet (template, data, refusal paths) and NewTemplateID; UDP refresher: sendRefreshedTemplates (with failing and succeeding writes); TCP checker: checkConnToCollector followed by closeConnToCollector; anyone, repeatedly: CloseConnToCollector - every access to a field of the process logged with the mutexes held, conflicting accesses from roles that can run concurrently without a common lock and not both atomic = VIOLATION (the harness's fake net.Conn stands for a concurrency-safe socket and is excluded); (2) sequential contracts with symbolic contents: after j template sends one refresh writes exactly j messages, one Write each, byte-identical to the reference encoding of the original templates and never advancing the sequence number; after the peer closed (Read returns io.EOF) the check reports it, the connection is closed exactly once, a later SendSet returns an error and writes nothing; closing twice is a no-op; after close neither SendSet nor a refresh writes a byte. NOT decidable here and not claimed: the ticker loops themselves (closures inside InitExportingProcess), 'within the check interval', real timing and real scheduling.",
+		Assumptions: []string{"cooperative single-threaded execution; interleavings are not explored; the race detector and Go memory model are trusted", "net.Conn contract: Write delivers all bytes or errors; after Close, Write/Read error; Read returns io.EOF when the peer closed"},
+		Harnesses: []HarnessSpec{
+			{Func: "Check_Lockset", NoNative: true, Reach: []string{"entry-point-done"}, Tune: func(c *sym.Config, th bool) { c.ClockMode = "wall" }, Bounds: "6 entry points x 0..2 templates already sent x write/peer outcomes"},
+			{Func: "Check_Contracts", Reach: []string{"refreshed", "peer-closed", "closed-twice"}, Tune: func(c *sym.Config, th bool) { c.ClockMode = "wall" }, Bounds: "0..3 templates sent, 0..2 data records sent, then one refresh / peer close + check + close / double close"},
+		},
+	},
 }
 
 var _ = sym.Config{}
